@@ -298,3 +298,24 @@ def g_adjoint_1d(kind, hp=False, single_reflection=True):
     obs = [solve.prove(oid + '/shape', 'LEMMA', c.pc, z3.And(*[I(a) == I(b) for a, b in zip(back.shape, x.shape)]), mv)]
     obs += ADJ.adjoint_obs(oid, [y], ['g0'], back, 'x', c.pc, mv, kind='LEMMA')
     return obs, {}
+
+
+def g_inv_absent_lemma(cls, which, kind, o_dim=2, ri_dim=-1):
+    """INV_J1 / INV_J2PLUS: an absent (None / 0-dim) band-pass or lowpass input gives the result of zeros of the right shape"""
+    l1 = cls.endswith('J1')
+    CUR.ctx = Ctx(FBASE)
+    c = ctx()
+    it = Interp()
+    ll = CD.data_tensor('ll', (Bn, C, 2 * H, 2 * W))
+    hs = CD.data_tensor('hs', _hshape(o_dim, ri_dim))
+    g = _l1_filters(False) if l1 else _qs_filters(False, 'g')
+    gone = None if kind == 'none' else t_zeros((), dtype=prims.DT_IN, kind='torch')
+    con = CT.CONTRACTS[TF + ':' + cls + '.apply']
+    if which == 'high':
+        a = con(it, ll, gone, *g, o_dim, ri_dim, 1)
+        b = con(it, ll, t_zeros(_hshape(o_dim, ri_dim), dtype=prims.DT_IN, kind='torch'), *g, o_dim, ri_dim, 1)
+    else:
+        a = con(it, gone, hs, *g, o_dim, ri_dim, 1)
+        b = con(it, t_zeros((Bn, C, 2 * H, 2 * W), dtype=prims.DT_IN, kind='torch'), hs, *g, o_dim, ri_dim, 1)
+    oid = 'LEMMA/%s.apply[%s %s == zeros]' % (cls, which, kind)
+    return verify.value_equal(oid, 'LEMMA', a, b, c.pc, FMV), {}
